@@ -351,3 +351,50 @@ def join_random(rng, count):
         cs, ce = (9, 3) if crev else (3, 9)
         yield (f"JOIN mult={rng.choice(['1', '1/2', '3', '0'])} var={rng.randrange(2)} "
                f"prev={pr[0]},{pr[1]},1,{pr[2]},{pr[3]},2 cur={cu[0]},{cu[1]},{cs},{cu[2]},{cu[3]},{ce}")
+
+
+# ------------------------------------------------------------------ CHAIN / RESOLVE (segments from the real pipeline pieces)
+def _real_segments(P, R, Q, rev, peaks, rlen):
+    """segments of every peak, produced by the REAL engine + scorer + factory (input generation only)"""
+    import realops
+    import codec
+    al = realops.make_aligner(P, 1, 0)
+    ref = codec.OpticalMap(1, rlen, R)
+    qry = codec.OpticalMap(7, Q[-1] + 1, Q)
+    segs = []
+    for p in peaks:
+        segs += al.getSegments(rev, codec.Peak(p, 1.0), qry, ref)
+    return segs
+
+
+def chain_random(rng, count):
+    import codec
+    made = 0
+    while made < count:
+        if rng.random() < 0.5:
+            # real-scale segments from a peak ladder
+            P = rand_params(rng)
+            R = make_reference(rng, rng.randrange(15, 60), rng.choice([3000, 9000]), rng.choice([200, 500, 2000]))
+            Q, off, _ = make_query(rng, R)
+            rev = rng.randrange(2)
+            if rev:
+                Q = mirror(Q)
+            peaks = ladder(rng, off)
+            segs = _real_segments(P, R, Q, rev, peaks, R[-1] + 1000)
+        else:
+            # dense lattice
+            nr = rng.randrange(4, 11)
+            R = sorted(rng.sample(range(0, 30), nr))
+            Q = sorted(rng.sample(range(0, 18), rng.randrange(3, 8)))
+            Q = [q - Q[0] for q in Q]
+            rev = rng.randrange(2)
+            P = {"sp": 10, "dp": rng.choice([1, 2, 4]), "su": rng.choice([-1, -2, -3]), "md": rng.choice([1, 2]),
+                 "ms": rng.choice([10, 15, 20]), "bs": rng.choice([5, 12, 30])}
+            peaks = rng.sample(range(-4, 16), rng.randrange(1, 5))
+            segs = _real_segments(P, R, Q, rev, peaks, 31)
+        if len(segs) > 10:
+            segs = segs[:10]
+        rng.shuffle(segs)
+        mult = rng.choice(["1", "1", "1/2", "2", "0"])
+        yield f"CHAIN {pstr(P)} mult={mult} var={rng.choice([0, 0, 1])} SEG={codec.show_segs(segs)}"
+        made += 1
